@@ -272,6 +272,10 @@ func (eng *Engine) VerifyFunc(f *ssa.Function) (rep *FuncReport) {
 		v := symVal("fv_"+fv.Name(), fv.Type())
 		binds = append(binds, v)
 		ex.assumeWellTyped(st, v, fv.Type())
+		if _, isPtr := fv.Type().Underlying().(*types.Pointer); isPtr && v.K == VScalar {
+			// captured variables are cells: the pointer to the cell is never nil
+			st.assume(Neq(v.T, IntLit(0, v.T.Sort)))
+		}
 	}
 	ex.pre = st // requires are evaluated in the entry state
 	ex.pushFrame(st, f, args, binds, 0)
